@@ -15,7 +15,7 @@ func init() {
 		ID:          "C06",
 		Explanation: "completeness and neutrality of certificate certEmission: (R6.1) every clause appended to the learned-clause database is written to the certificate by the same function when Certified is set; (R6.2) a literal produced by conflict analysis is bound at the top level only after it was written; (R6.3) on the way from Solve, Unsat is concluded only by the function that writes the empty clause first, and search functions return Unsat only as that function's result; (R6.4) code that runs only when Certified is set writes no solver state, so the flag cannot change the verdict; (R6.5) the stdout form and the channel form of each certEmission carry the same payload.",
 		NotDecided:  "that each emitted clause is a reverse-unit-propagation consequence (soundness of first-UIP learning and minimisation): needs a replay of the certificate.",
-		Rules:       []ruleFn{ruleR6_1, ruleR6_2, ruleR6_3, ruleR6_4, ruleR6_5, ruleR1_8, ruleR1_10, ruleR1_11, ruleR1_12, ruleR2_8},
+		Rules:       []ruleFn{ruleR6_1, ruleR6_2, ruleR6_3, ruleR6_4, ruleR6_5, ruleR1_8, ruleR1_10, ruleR1_11, ruleR1_12, ruleR2_8, ruleR6_6, ruleR6_7},
 	})
 }
 
